@@ -140,6 +140,23 @@ theorem dotF_congr (w : List K) (g h : ℕ → K) (hgh : ∀ i < w.length, g i =
     rw [hgh 0 (by simp), ih (fun i => g (i + 1)) (fun i => h (i + 1))
       (fun i hi => hgh (i + 1) (by simp; omega))]
 
+/-- a window of a sequence that is a finite sum of powers of a geometric step:
+`Σ_i w_i Σ_j d_j (h0 θ^(t+i))^(k_j) = Σ_j d_j (h0 θ^t)^(k_j) · p_w(θ^(k_j))` -/
+theorem dotF_geometric {ι : Type} (S : Finset ι) (w : List K) (d : ι → K) (k : ι → ℕ) (h0 θ : K) (t : ℕ) :
+    dotF w (fun i => ∑ j ∈ S, d j * (h0 * θ ^ (t + i)) ^ (k j))
+      = ∑ j ∈ S, d j * (h0 * θ ^ t) ^ (k j) * evalP w (θ ^ (k j)) := by
+  have : (fun i => ∑ j ∈ S, d j * (h0 * θ ^ (t + i)) ^ (k j))
+      = (fun i => ∑ j ∈ S, (d j * (h0 * θ ^ t) ^ (k j)) * (θ ^ (k j)) ^ i) := by
+    funext i
+    apply Finset.sum_congr rfl
+    intro j _
+    rw [pow_add, ← pow_mul]
+    ring
+  rw [this, dotF_finset_sum]
+  apply Finset.sum_congr rfl
+  intro j _
+  rw [dotF_pow]
+
 /-- the list correlation read through `dotF` -/
 theorem wsum_eq_dotF (w seq : List K) (h : w.length ≤ seq.length) :
     wsum w seq = dotF w (fun i => seq.getD i 0) := by
